@@ -122,58 +122,8 @@ def run_pool(shard):
     return part.result()
 
 
-# ---- quantifiers over the instances of dynamic templates, DYNAMIC_EVAL members, numOf / foreach in queries -----------------
-DYN_XTA = ("dynamic Worker(int[0,3] wk); dynamic Probe(); " + G.DECL + """
-process Worker(int[0,3] wk) { int load = 1; clock t; state Idle; init Idle; }
-process Probe() { int level = 2; state Wait; init Wait; }
-process Main() { state A; init A; }
-M = Main();
-system M;
-""")
-DYN_CTX = {"kind": "xta", "text": DYN_XTA}
-DYN_MEMBERS = {"Worker": ("load", "Idle"), "Probe": ("level", "Wait")}
-
-
-def dynamic_items():
-    """(expressions, queries): each dynamic quantifier x template x body (member of the bound instance, globals, a binder that
-    hides a global), in three surroundings; all ordered pairs of nested quantifiers incl. the same binder name twice"""
-    exprs, queries = [], []
-
-    def bodies(b, tn):
-        num, loc = DYN_MEMBERS[tn]
-        return ["%s.%s > a" % (b, num), "%s.%s" % (b, loc), "%s.%s == b + 1 && q" % (b, num), "a < b", "fn1(%s.%s) > arr[c]" % (b, num),
-                "%s.%s && !(%s.%s < rec.f)" % (b, loc, b, num)]
-
-    def nums(b, tn):
-        num, _ = DYN_MEMBERS[tn]
-        return ["%s.%s" % (b, num), "%s.%s + a" % (b, num), "a * 2", "fn2(%s.%s, b)" % (b, num)]
-
-    quants = []
-    for tn in DYN_MEMBERS:
-        for b in ("w1", "p"):                     # `p` is also a global bool
-            for qf in ("forall", "exists"):
-                for body in bodies(b, tn):
-                    quants.append("%s (%s : %s)(%s)" % (qf, b, tn, body))
-            for body in nums(b, tn):
-                quants.append("(sum (%s : %s)(%s)) > c" % (b, tn, body))
-    for qf1 in ("forall", "exists"):
-        for qf2 in ("forall", "exists", "sum"):
-            for b2 in ("r", "w1"):
-                inner = ("%s (%s : Probe)(w1.load > %s.level + c)" % (qf2, b2, b2) if qf2 != "sum"
-                         else "(sum (%s : Probe)(%s.level + c)) < w1.load" % (b2, b2))
-                if b2 == "w1":                     # the inner binder hides the outer one; the outer one is used after it
-                    inner = ("%s (w1 : Probe)(w1.level > c)" % qf2 if qf2 != "sum" else "(sum (w1 : Probe)(w1.level)) > c") + " && w1.load > a"
-                quants.append("%s (w1 : Worker)(%s)" % (qf1, inner))
-    for x in quants:
-        exprs += [x, "%s && a > b" % x, "!(%s) || q" % x]
-        queries += ["Pr[<=10](<> %s)" % x, "Pr[<=10]([] %s && numOf(Worker) > a)" % x]
-    for tn in DYN_MEMBERS:
-        num, loc = DYN_MEMBERS[tn]
-        queries += ["simulate [<=10] { numOf(%s), (sum (w1 : %s)(w1.%s)), a }" % (tn, tn, num),
-                    "Pr[<=10](<> (foreach (w1 : %s)(w1.%s)) > numOf(%s))" % (tn, num, tn),
-                    "E[<=10; 5](max: (sum (w1 : %s)(w1.%s + b)))" % (tn, num),
-                    "Pr[<=10](<> numOf(%s) == b + 1)" % tn]
-    return exprs, queries
+import dynspace as DS  # noqa: E402
+DYN_XTA, DYN_CTX, DYN_MEMBERS, dynamic_items = DS.DYN_XTA, DS.DYN_CTX, DS.DYN_MEMBERS, DS.dynamic_items
 
 
 def run_dynamic(shard):
